@@ -267,6 +267,23 @@ func gossipCmd(out *cq.Out, seed uint64, tier string) {
 				map[string]interface{}{"seed": seed, "broadcast_timeout_s": 1, "redelivered_after_ms": 2300})
 		}
 	}
+	// ---- an agent with two task factories (the monitor registers two) whose task manager refuses the second factory's task:
+	// the same batch arriving again must not run the first factory's task a second time
+	{
+		cache := freecache.NewCache(gossip.DefaultConfig().CacheSize)
+		b := &protocol.BatchSnapshots{}
+		for j := 0; j < 5; j++ {
+			x := make([]byte, 32)
+			x[0], x[31] = 91, byte(j)
+			b.Snapshots = append(b.Snapshots, &protocol.SignedSnapshot{Snapshot: &protocol.Snapshot{EventDigest: x, HistoryDigest: x, HyperDigest: x, Version: uint64(100 + j)}, Signature: append(make([]byte, 32), x...)})
+		}
+		n1, n2 := gossip.VRedeliverRefusing(cache, b, 3)
+		out.Case("refusing-task-manager", true)
+		if n1 > 1 || n2 > 1 {
+			out.Violate("C18:batch-processed-twice:task-refused", fmt.Sprintf("an agent with two task factories whose task manager refused the second factory's task: the same batch arrived 3 times and the factories created %d and %d tasks for it (at most one each)", n1, n2),
+				map[string]interface{}{"seed": seed, "scenario": "task manager refuses a task, batch redelivered", "deliveries": 3})
+		}
+	}
 	f, _ := os.Create(out.Dir + "/cases.v")
 	fmt.Fprintf(f, "From Coq Require Import List NArith ZArith.\nFrom QV Require Import Gossip.Gossip Run.GossipRun.\nImport ListNotations.\nOpen Scope N_scope.\n")
 	fmt.Fprintf(f, "Definition cases : list (list gop) := %s.\n", cq.List(cases))
